@@ -1,6 +1,6 @@
 """Property -> rules table."""
 
-from .rules import inplace, maps, exponent, decomp, threads, evo, tebd
+from .rules import inplace, maps, exponent, decomp, threads, evo, tebd, record
 
 COMMON_ASSUMPTIONS = [
     "the repository's own source is what runs: no monkey-patching, setattr tricks or user code outside /repo",
@@ -10,6 +10,17 @@ COMMON_ASSUMPTIONS = [
 ]
 
 REGISTRY = {
+    "C08": {
+        "rules": [record.rule_record, record.rule_absorb_keyed, record.rule_clients],
+        "explanation": (
+            "static (typestate-style rules over the record-aware functions of tn1d/core.py and their circuit "
+            "clients): decides that the canonical-form record is threaded to every record-aware callee, is only "
+            "ever updated for the object that is handed back (else forked), is re-asserted after structural "
+            "changes, and that absorb-/option-keyed stores name the right site. Does NOT decide numerical "
+            "isometry of the sites nor the values computed through the canonical form."
+        ),
+        "assumptions": COMMON_ASSUMPTIONS,
+    },
     "C11": {
         "rules": [tebd.rule_id_cache, tebd.rule_trotter_coeffs, tebd.rule_time_bookkeeping, tebd.rule_term_sharing],
         "explanation": (
@@ -72,7 +83,7 @@ REGISTRY = {
     },
     "C02": {
         "rules": [maps.rule_map_owner, maps.rule_rename_notifies, maps.rule_pairing,
-                  maps.rule_copy_complete, maps.rule_extra_props],
+                  maps.rule_copy_complete, maps.rule_extra_props, maps.rule_collision_provenance],
         "explanation": (
             "static (AST who-may-write + structural pairing rules): decides the structural conditions under "
             "which the lookup maps can never go stale — only the maintaining methods write tensor_map / ind_map / "
@@ -84,7 +95,7 @@ REGISTRY = {
         "assumptions": COMMON_ASSUMPTIONS,
     },
     "C03": {
-        "rules": [inplace.rule_inplace_effect, inplace.rule_alias_spelling, inplace.rule_array_immut],
+        "rules": [inplace.rule_inplace_effect, inplace.rule_alias_spelling, inplace.rule_array_immut, inplace.rule_operator_pure],
         "explanation": (
             "static (AST + interprocedural alias/effect analysis): decides the non-mutation clause of C03 — "
             "every plain spelling of an (f, f_) pair leaves its receiver, the tensors it shares and their "
@@ -97,6 +108,7 @@ REGISTRY = {
 
 
 TECHNIQUE = {
+    "C08": "static analysis: typestate rules on the info['cur_orthog'] record (threading, object-following with copy/alias classification, re-assertion after structural events, option-keyed stores)",
     "C11": "static analysis: id()-keyed cache coherence rule, constant folding of Trotter coefficients, structural time/queue bookkeeping rules",
     "C18": "static analysis: dispatch-table extraction (method x state kind) with helper following; statement-order rules on the update routines",
     "C16": "static analysis: kernel-template conformance and write-disjointness rules, sign/zero abstract interpretation of the partition helper, future-observation rule, strided-sibling comparison",
